@@ -63,6 +63,31 @@ class IndexReplacer(MultiFunction):
         indices = tuple(self.fimap.get(i, i) for i in o)
         return MultiIndex(indices)
 
+    def _binder(self, o):
+        """Handle a node that binds indices (IndexSum, ComponentTensor).
+
+        The replacement applies to the free indices of ``o`` only. Indices
+        bound by ``o`` shadow equal keys of the map, and a bound index that
+        coincides with a replacement value is renamed first, so that the
+        value is not captured by the binder.
+        """
+        body, bound = o.ufl_operands
+        free = {i for i in map(Index, body.ufl_free_indices) if i not in bound}
+        fimap = {i: j for i, j in self.fimap.items() if i in free}
+        if not fimap:
+            # Reuse if untouched
+            return o
+        captured = [i for i in bound if i in fimap.values()]
+        if captured:
+            renaming = {i: Index() for i in captured}
+            body = map_expr_dag(IndexReplacer(renaming), body)
+            bound = MultiIndex(tuple(renaming.get(i, i) for i in bound))
+        body = map_expr_dag(IndexReplacer(fimap), body)
+        return o._ufl_expr_reconstruct_(body, bound)
+
+    index_sum = _binder
+    component_tensor = _binder
+
 
 class IndexRemover(MultiFunction):
     """Remove Indexed."""
